@@ -186,30 +186,76 @@ def r4_loop_templates(ctx, T, rule="C02.R4"):
         ok = True
         why = ""
         n_paths = 0
+        polarities = set()
         for seq in emit.linear_paths(f.body, evs):
             n_paths += 1
-            names = [(e.kind, e.name) for e in seq if e.kind in ("label", "jump", "jump_if_false")]
-            if ("label", head) not in names or ("jump", head) not in names:
-                ok, why = False, "no back-edge jump to the loop head `%s`" % head
-            back = [i for i, e in enumerate(seq) if e.kind == "jump" and e.name == head]
-            exits = [e.name for e in seq if e.kind == "jump_if_false"
-                     and any(x.kind == "label" and x.name == e.name and back and seq.index(x) > back[-1] for x in seq)]
-            if len(set(exits)) != 1:
-                ok, why = False, "no conditional exit to a label emitted after the back edge"
-                continue
-            exit_ = exits[0]
-            kinds = [e.kind for e in seq]
-            if kinds.count("BLOCK") != 1 or kinds.count("EXPR") != 1:
+            # the emitted code of this generator path as a graph: an event falls through to the next one
+            # unless it is an unconditional jump; jump / jump_if_false lead to the label of their name
+            seq = [e for e in seq if e.kind in ("label", "jump", "jump_if_false", "BLOCK", "EXPR", "push", "gen", "STMT")]
+            n = len(seq)
+            END = n
+            lab = {}
+            for i, e in enumerate(seq):
+                if e.kind == "label":
+                    lab.setdefault(e.name, i)
+            succ = {i: [] for i in range(n + 1)}
+            for i, e in enumerate(seq):
+                if e.kind != "jump":
+                    succ[i].append(i + 1)
+                if e.kind in ("jump", "jump_if_false"):
+                    if e.name is None or e.name not in lab:
+                        ok, why = False, "a jump to a label that is not emitted on the path"
+                        continue
+                    succ[i].append(lab[e.name])
+
+            def reach(src, avoid=()):
+                seen, st = set(), [src]
+                while st:
+                    x = st.pop()
+                    if x in seen or x in avoid:
+                        continue
+                    seen.add(x)
+                    st.extend(succ.get(x, ()))
+                return seen
+            blocks = [i for i, e in enumerate(seq) if e.kind == "BLOCK"]
+            exprs = [i for i, e in enumerate(seq) if e.kind == "EXPR"]
+            if len(blocks) != 1 or len(exprs) != 1:
                 ok, why = False, "the body / condition is not emitted exactly once"
-            # the condition is evaluated between the head label and the exit jump (inside the loop)
-            hi = [i for i, e in enumerate(seq) if e.kind == "label" and e.name == head]
-            ei = [i for i, e in enumerate(seq) if e.kind == "jump_if_false" and e.name == exit_]
-            ci = [i for i, e in enumerate(seq) if e.kind == "EXPR"]
-            if hi and ei and ci and back and not (hi[0] < ci[0] < ei[0] and hi[0] < back[0]):
-                ok, why = False, "the condition is not re-evaluated inside the loop"
+                continue
+            bi, ci = blocks[0], exprs[0]
+            if ci not in reach(bi + 1) or bi not in reach(ci + 1):
+                ok, why = False, "body and condition are not on one cycle of the emitted code: the condition is " \
+                                 "not re-evaluated after each run of the body (or the body is not repeated)"
+                continue
+            if END not in reach(ci + 1, avoid=(bi,)):
+                ok, why = False, "after the condition the emitted code cannot leave the loop without running the body again"
+                continue
+            # the decision is made on the condition's value: the first conditional jump after the
+            # condition comes before anything else is evaluated
+            j = ci + 1
+            while j < n and seq[j].kind not in ("jump_if_false", "BLOCK", "EXPR", "gen", "STMT"):
+                j += 1
+            if j >= n or seq[j].kind != "jump_if_false":
+                ok, why = False, "no conditional jump decides on the condition"
+                continue
+            # polarity: where a true condition (fall-through of jump_if_false) leads
+            true_side = reach(j + 1, avoid=(j,))
+            false_side = reach(lab[seq[j].name], avoid=(j,)) if seq[j].name in lab else set()
+            t_body = bi in reach(j + 1, avoid=(END,)) and not (END in reach(j + 1, avoid=(bi,)))
+            f_body = bi in false_side and END not in reach(lab[seq[j].name], avoid=(bi,))
+            if t_body == f_body:
+                ok, why = False, "both outcomes of the test lead to the same place"
+                continue
+            polarities.add("while" if t_body else "until")
+        if ok and n_paths > 0:
+            # WHILE / DO WHILE repeat on a true condition, DO UNTIL on a false one: an emitter with one spelling
+            # is a `while`; one that has both kinds must produce both polarities
+            if len(polarities) == 1 and polarities != {"while"}:
+                ok, why = False, "the only polarity emitted is `repeat while the condition is false`"
         k = sum(1 for x in ctx.obs if x.key.startswith("%s:%s" % (rule, construct)))
         ctx.decide(ok and n_paths > 0, rule, "%s:%s%s" % (rule, construct, "#%d" % k if k else ""), f.loc,
-                   "head label, condition inside the loop, conditional exit, back edge", "%s: %s" % (f.name, why))
+                   "body and condition on one cycle, an exit after the condition, a test on the condition (%s)"
+                   % "/".join(sorted(polarities)), "%s: %s" % (f.name, why))
     # FOR: the helper jumps back to its own loop label and exits to out-of-for
     if len(for_helpers) != 1:
         raise CheckError("%s: expected one emitter with a back edge and a register frame (FOR), found %d"
@@ -661,6 +707,56 @@ def r10_for_step_as_evaluated(ctx, T, rule="C02.R10"):
     ctx.require(rule, 2)
 
 
+COMPARISONS = ("Equal", "NotEqual", "Less", "Greater", "LessOrEqual", "GreaterOrEqual")
+
+
+def r11_tested_value_is_not_a_bitwise_complement(ctx, rule="C02.R11"):
+    """A conditional jump tests `A is not zero`; NOT is the bitwise complement.  The two agree on the
+    outcome only for -1 and 0, i.e. for comparison results: `NotA` followed by a conditional jump is
+    sound after a comparison instruction and wrong after an arbitrary user expression (`DO UNTIL n` with
+    n = 1: NOT 1 is -2, still `true`, the loop never ends).  Walked over every emission path of every
+    generator function; an expression evaluated by a callee leaves an arbitrary value in A."""
+    prog = ctx.prog
+    n_paths = n_not = 0
+    bad = {}
+    for g in sorted(emit.generator_fns(prog), key=lambda f: f.id):
+        evs = emit.events(prog, g)
+        if not any(e.kind == "push" and e.instr == "NotA" for e in evs.values()):
+            continue
+        for seq in emit.linear_paths(g.body, evs, unroll=1):
+            n_paths += 1
+            a = "unknown"
+            for e in seq:
+                if e.kind in ("EXPR", "gen", "BLOCK", "STMT"):
+                    a = "user"
+                elif e.kind == "push":
+                    if e.instr in COMPARISONS:
+                        a = "flag"
+                    elif e.instr == "NotA":
+                        n_not += 1
+                        a = "flag" if a == "flag" else "complement-of-" + a
+                    elif e.instr in ("LoadIntoA", "CopyDToA", "PopValueStackIntoA", "CopyVarPathToA", "And", "Or", "Plus",
+                                     "Minus", "Multiply", "Divide", "Modulo", "NegateA", "Cast", "FixLength",
+                                     "UnStashFunctionReturnValue", "DequeueFromReturnStack", "AllocateBuiltIn",
+                                     "AllocateFixedLengthString", "AllocateArrayIntoA", "AllocateUserDefined",
+                                     "IsVariableDefined"):
+                        a = "flag" if e.instr == "IsVariableDefined" else "other"
+                elif e.kind == "jump_if_false":
+                    if a.startswith("complement-of-"):
+                        bad.setdefault(g.id, (g, e.line, a))
+    used = {}
+    for gid, (g, line, a) in sorted(bad.items()):
+        base = "%s:%s" % (rule, common.generator_construct_of(prog, g))
+        used[base] = used.get(base, 0) + 1
+        ctx.violation(rule, base if used[base] == 1 else "%s#%d" % (base, used[base] - 1), "%s:%s" % (g.file, line),
+                      "%s emits NotA on a value that is not a comparison result (%s) and then a conditional jump: the "
+                      "jump tests `NOT x <> 0`, which is true for every x except -1 - UNTIL with a condition like `n` or "
+                      "`a AND 4` never becomes true" % (g.name, a[len("complement-of-"):]))
+    ctx.decide(True, rule, rule + ":paths-walked", "instruction_generator", "%d paths, %d NotA emissions" % (n_paths, n_not))
+    ctx.analysed_units(rule, emission_paths=n_paths, nota_on_paths=n_not)
+    ctx.require(rule, 1)
+
+
 def run(ctx):
     common.install(ctx)
     T = templates.Templates(ctx.prog)
@@ -675,3 +771,4 @@ def run(ctx):
     c15.r8_register_liveness(ctx, "C02.R8")
     r9_statement_lists_are_repetitions(ctx)
     r10_for_step_as_evaluated(ctx, T)
+    r11_tested_value_is_not_a_bitwise_complement(ctx)
